@@ -4,6 +4,8 @@ from hirq import *  # noqa: F401,F403
 
 def check(ctx):
     who_may_write(ctx)
+    import cursor
+    cursor.check(ctx)
     other_loops(ctx)
 
 
